@@ -335,7 +335,7 @@ fn main() {
             };
 
             if !lint.no_output {
-                diags.sort();
+                DiagnosticItem::sort_for_output(&mut diags, &parser.reader);
 
                 // Output as JSON
                 if lint.json {
